@@ -141,4 +141,47 @@ example : plain (b!"he--llo") := by
   simp only [Bool.and_eq_true, bne_iff_ne, ne_eq] at h2
   exact h2
 
+open Htp.Gen in
+theorem takeWhile_allOf {α} (q : α → Bool) (l : List α) (h : ∀ b ∈ l, q b = true) : l.takeWhile q = l := by
+  induction l with
+  | nil => rfl
+  | cons c t ih => simp only [List.takeWhile, h c (by simp)]; rw [ih (fun b hb => h b (by simp [hb]))]
+
+section
+open Htp Htp.Gen Htp.Multipart
+
+/-- the search for the parameter name stops at the `boundary` of a plain `multipart/form-data; boundary=...` value, whatever follows -/
+theorem index_boundary (tail : Bytes) :
+    Bstr.indexOfMemNocase ((b!"multipart/form-data; boundary") ++ tail) (b!"boundary") = some 21 := by
+  simp [Bstr.indexOfMemNocase, Bstr.indexOfAux, Bstr.prefixMatch, Bstr.eqUpper]
+  decide
+
+
+/-- **C14 (boundary extraction)**: for a Content-Type value `multipart/form-data; boundary=B` whose boundary `B` is non-empty and contains
+    no comma, semicolon, white space or double quote, htp_mpartp_find_boundary returns exactly `B`. -/
+theorem C14_boundary_exact (c0 : UInt8) (bt : Bytes)
+    (hb : ∀ x ∈ c0 :: bt, (x != COMMA && x != SEMI && !isSpace x) = true ∧ x ≠ DQUOTE) :
+    (findBoundary ((b!"multipart/form-data; boundary") ++ EQS :: c0 :: bt)).1 = some (c0 :: bt) := by
+  have h0 := hb c0 (by simp)
+  have hsp0 : isSpace c0 = false := by
+    have := h0.1; simp only [Bool.and_eq_true, Bool.not_eq_true'] at this; exact this.2
+  have hdq : (c0 == DQUOTE) = false := by simpa using h0.2
+  unfold findBoundary
+  rw [index_boundary]
+  simp only
+  have hd : ((b!"multipart/form-data; boundary") ++ EQS :: c0 :: bt).drop (21 + 8) = EQS :: c0 :: bt := by
+    exact List.drop_left' (by decide)
+  rw [hd]
+  have hpre : (EQS :: c0 :: bt).takeWhile (· != EQS) = [] := by simp [List.takeWhile]
+  simp only [hpre, List.length_nil, List.drop_zero, List.foldl_nil]
+  have hws : (c0 :: bt).takeWhile isSpace = [] := by simp [List.takeWhile, hsp0]
+  simp only [hws, List.isEmpty_nil, if_true, List.length_nil, List.drop_zero, hdq, Bool.false_eq_true, if_false]
+  have htw : (c0 :: bt).takeWhile (fun c => c != COMMA && c != SEMI && !isSpace c) = c0 :: bt :=
+    takeWhile_allOf _ _ (fun x hx => (hb x hx).1)
+  simp only [htw, List.drop_length, List.isEmpty_cons, Bool.false_eq_true, if_false]
+
+example : (findBoundary (b!"multipart/form-data; boundary=----WebKitFormBoundaryX7")).1 = some (b!"----WebKitFormBoundaryX7") := by decide
+
+end
+
 end Htp.Props.C14
